@@ -23,6 +23,9 @@ def _construct(op):
         if cfg.get("ic") is None:
             return c(eos)                       # the class's own (mutable) default initial_conditions
         return c(eos, dict(cfg["ic"]))
+    if cls.startswith("hydro:"):                # a family of the hydro catalogue (xpmc/hydro.py, hydro_more.py), full cfg
+        from xpmc import hydro, hydro_more  # noqa: F401
+        return hydro.make(hydro.by_name(cls.split(":", 1)[1]), cfg)
     if cls == "builder:guderley":
         from xpmc import guderley_cache
         guderley_cache.install()
